@@ -208,9 +208,11 @@ Proof.
   unfold buf_process, shutdown_part. cbn [w_mod set_buf set_fes w_fin].
   destruct (shut (w_mod w m)) as [r|]; cbn [fst snd]; [|split; [cbn [ended flat_map]; rewrite app_nil_r; reflexivity|intros j; cbn [spawned flat_map]; rewrite app_nil_r; reflexivity]].
   destruct (ended_cancelled m c (w_mod w m)) as [A B].
+  assert (Hrp : ended (rpanic c m) = [] /\ forall j, spawned j (rpanic c m) = []) by (unfold rpanic; destruct (c_rsend c); split; reflexivity).
+  destruct Hrp as [R1 R2].
   split.
-  - rewrite ended_app, A. cbn [ended flat_map en1 app]. rewrite app_nil_r. destruct r; reflexivity.
-  - intros j. rewrite spawned_app. cbn [spawned flat_map sp1 app]. rewrite app_nil_r.
+  - rewrite ifse_fin, !ended_app, A, R1. cbn [ended flat_map en1 app]. rewrite !app_nil_r. destruct r; reflexivity.
+  - intros j. rewrite ifse_mod, !spawned_app, R2. cbn [spawned flat_map sp1 app]. rewrite !app_nil_r.
     assert (E : spawned j (cancelled m c (w_mod w m)) = []).
     { destruct (N.eq_dec j m) as [->|Hj]; [exact B|]. apply (spawned_other m j); [auto|apply cancelled_own]. }
     rewrite E, app_nil_r.
@@ -455,7 +457,7 @@ Definition is_pe (e : N * N) : bool := fst e =? 0.
 Lemma filter_perrs sc l : filter is_pe (perrs sc l) = perrs sc l.
 Proof.
   induction l as [|i l IH]; [reflexivity|]. unfold perrs in *. cbn [flat_map]. rewrite filter_app, IH.
-  destruct i as [| | | | | |m0 who cc| | | | | |]; try reflexivity. destruct who; [|reflexivity]. cbn [perr]. destruct cc; reflexivity.
+  destruct i as [| | | | | |m0 who cc| | | | | | |]; try reflexivity. destruct who; [|reflexivity]. cbn [perr]. destruct cc; reflexivity.
 Qed.
 
 Lemma filter_join_errs c m hs fin : filter is_pe (join_errs c m hs fin) = [].
